@@ -7,7 +7,9 @@ package codec
 // TransactionsRoot (tx-list mutants: reorder/duplicate/drop/replace/count tamper/odd-level
 // duplication); (3) Header.Hash() == sha256d(reference encoding of the nine unsigned fields): it
 // changes with every change of one of them and never with signer-list / signature edits;
-// (4) no panic on arbitrary bytes.
+// (4) no panic on arbitrary bytes; (5) an independent encoder that can widen every var-uint /
+// var-bytes length prefix of header and transactions to a non-minimal FD/FE/FF form: such bytes are
+// rejected or re-encode identically (the encoder only writes minimal prefixes, so: rejected).
 
 import (
 	"bytes"
@@ -182,8 +184,8 @@ func c20ExpectedReencoding(b []byte) ([]byte, bool) {
 	pos := uint64(uLen)
 	for section := 0; section < 2; section++ {
 		n, sz, ok := c18RefVarDec(b, pos)
-		if !ok {
-			return nil, false
+		if !ok || sz != c18RefVarSize(n) {
+			return nil, false // a non-minimal count is not part of either recorded finding
 		}
 		pos += sz
 		if n >= 1<<63 {
@@ -192,8 +194,8 @@ func c20ExpectedReencoding(b []byte) ([]byte, bool) {
 		out = append(out, c18RefVarEnc(n)...)
 		for i := uint64(0); i < n; i++ {
 			l, sz, ok := c18RefVarDec(b, pos)
-			if !ok || l > uint64(len(b)) || pos+sz+l > uint64(len(b)) {
-				return nil, false
+			if !ok || sz != c18RefVarSize(l) || l > uint64(len(b)) || pos+sz+l > uint64(len(b)) {
+				return nil, false // nor is a non-minimal length prefix of a key or signature
 			}
 			blob := b[pos+sz : pos+sz+l]
 			if section == 0 {
@@ -429,7 +431,7 @@ func c20Build(t *rapid.T, g *c20Gen) *types.Block {
 	return &types.Block{Header: hd, Transactions: g.txs}
 }
 
-const c20Rule = "blocks with 0..12 generated signed txs (deploy/invoke/EIP-155), generated header fields, 0..7 bookkeepers of all key kinds with real or arbitrary signatures; tx-list mutants (swap, permute, duplicate, drop, replace, count tamper, duplication of the odd tail at every merkle level) with and without a recomputed root; header field / signer edits; alternative accepted key encodings and hostile counts in the header; byte mutants and spliced arbitrary bytes; non-trivial = block with >=2 txs, any mutant, or an arbitrary input that decodes; distinct = different bytes/edit"
+const c20Rule = "blocks with 0..12 generated signed txs (deploy/invoke/EIP-155), generated header fields, 0..7 bookkeepers of all key kinds with real or arbitrary signatures; tx-list mutants (swap, permute, duplicate, drop, replace, count tamper, duplication of the odd tail at every merkle level) with and without a recomputed root; header field / signer edits; alternative accepted key encodings and hostile counts in the header; byte mutants and spliced arbitrary bytes; blocks and headers re-written by an independent encoder with 1..3 length prefixes (consensus payload, bookkeeper count, each bookkeeper key, signature count, each signature, every length field inside each tx incl. the EIP-155 wrapper) widened to a drawn non-minimal FD/FE/FF form, with canonical and alternative key blobs; non-trivial = block with >=2 txs, any mutant, or an arbitrary input that decodes; distinct = different bytes/edit"
 
 // ---------------------------------------------------------------------------------------------
 
@@ -858,6 +860,238 @@ func TestC20_HeaderSignerEncodings(t *testing.T) {
 		}
 		sort.Strings(kinds)
 		ev.Case(alt || hostile != "", fmt.Sprintf("signerenc %v %s accepted=%v :: %s", kinds, hostile, v.blk != nil, harn.Hex(h.encode()[len(h.unsigned()):])))
+	})
+}
+
+// ---------------------------------------------------------------------------------------------
+// non-minimal length prefixes at every prefix position
+
+// c20Prefix locates one var-uint / var-bytes length prefix inside a canonical encoding.
+type c20Prefix struct {
+	off, size int
+	kind      string
+}
+
+// c20HdrPrefixes encodes the header model canonically and lists its length prefixes in wire order:
+// consensus payload, bookkeeper count, every key, signature count, every signature.
+func c20HdrPrefixes(h *c20Hdr) ([]byte, []c20Prefix) {
+	var b []byte
+	var ps []c20Prefix
+	vu := func(kind string, v uint64) {
+		enc := c18RefVarEnc(v)
+		ps = append(ps, c20Prefix{len(b), len(enc), kind})
+		b = append(b, enc...)
+	}
+	vb := func(kind string, x []byte) { vu(kind, uint64(len(x))); b = append(b, x...) }
+	u := h.unsigned()
+	b = append(b, u[:4+32*3+4+4+8]...)
+	vb("cpayload", h.cpayload)
+	b = append(b, h.next[:]...)
+	vu("bkcount", uint64(len(h.keys)))
+	for _, k := range h.keys {
+		vb("key", k)
+	}
+	vu("sigcount", uint64(len(h.sigs)))
+	for _, s := range h.sigs {
+		vb("sig", s)
+	}
+	return b, ps
+}
+
+// c20TxPrefixes lists the length prefixes of a transaction's canonical encoding (reference field
+// encoder of C19; the 00 d3 varuint(len) rlp wrapper for EIP-155).
+func c20TxPrefixes(tx *types.Transaction, raw []byte) ([]c20Prefix, error) {
+	if tx.TxType == types.EIP155 {
+		_, sz, ok := c18RefVarDec(raw, 2)
+		if !ok {
+			return nil, fmt.Errorf("EIP155 wrapper without length prefix: %x", raw)
+		}
+		return []c20Prefix{{2, int(sz), "tx"}}, nil
+	}
+	f, err := c19FieldsOf(tx)
+	if err != nil {
+		return nil, err
+	}
+	full := f.full()
+	if !bytes.Equal(full.b, raw) {
+		return nil, fmt.Errorf("reference tx encoding %x differs from ToArray %x", full.b, raw)
+	}
+	var ps []c20Prefix
+	for _, v := range full.varints {
+		ps = append(ps, c20Prefix{v[0], v[1], "tx"})
+	}
+	return ps, nil
+}
+
+// c20Widen re-writes the canonical encoding b with prefix i in the total width widths[i] (3, 5 or 9 bytes).
+func c20Widen(b []byte, ps []c20Prefix, widths map[int]int) []byte {
+	var out []byte
+	last := 0
+	for i, p := range ps {
+		w, ok := widths[i]
+		if !ok {
+			continue
+		}
+		val, _, _ := c18RefVarDec(b, uint64(p.off))
+		out = append(append(out, b[last:p.off]...), c18ForcedVarEnc(val, w)...)
+		last = p.off + p.size
+	}
+	return append(out, b[last:]...)
+}
+
+func TestC20_NonMinimalPrefixes(t *testing.T) {
+	ev := harn.For("C20").Rule(c20Rule)
+	for _, k := range []string{"cpayload", "bkcount", "key", "sigcount", "sig", "tx"} {
+		ev.Floor("widen:only:"+k, "widen", 0.05)
+	}
+	ev.Floor("widen:several", "widen", 0.10)
+	known := c20Known()
+	harn.Check(t, 500, 12000, func(t *rapid.T) {
+		g := c20GenBlockN(t, 1, 3)
+		h := g.hdr.clone()
+		if len(h.keys) == 0 || len(h.sigs) == 0 { // every prefix kind present in every case
+			k := c19GenKey(t, "bk")
+			h.keys = append(h.keys, keypair.SerializePublicKey(k.PublicKey))
+			h.sigs = append(h.sigs, c19GenBlob(t, "sig", 300))
+		}
+		altKey := ""
+		if rapid.IntRange(0, 5).Draw(t, "altKey") == 0 {
+			// an alternative accepted key blob next to the widened prefix: the recorded finding must
+			// not hide a non-minimal prefix
+			i := rapid.IntRange(0, len(h.keys)-1).Draw(t, "altAt")
+			h.keys[i], altKey = c20AltKeyBlob(t, c19GenKey(t, "altbk"))
+		}
+		hb, hps := c20HdrPrefixes(h)
+		if !bytes.Equal(hb, h.encode()) {
+			t.Fatalf("harness: the two reference header encoders disagree")
+		}
+		// all prefixes of the block: header, then per tx (offsets relative to the tx)
+		type where struct{ tx, idx int } // tx == -1: header
+		var all []where
+		var kinds []string
+		byKind := map[string][]int{}
+		txps := make([][]c20Prefix, len(g.txs))
+		for i, p := range hps {
+			byKind[p.kind] = append(byKind[p.kind], len(all))
+			all, kinds = append(all, where{-1, i}), append(kinds, p.kind)
+		}
+		for ti, tx := range g.txs {
+			ps, err := c20TxPrefixes(tx, g.raws[ti])
+			if err != nil {
+				t.Fatalf("harness: tx %d: %v", ti, err)
+			}
+			txps[ti] = ps
+			for i := range ps {
+				byKind["tx"] = append(byKind["tx"], len(all))
+				all, kinds = append(all, where{ti, i}), append(kinds, "tx")
+			}
+		}
+		var kindNames []string
+		for k := range byKind {
+			kindNames = append(kindNames, k)
+		}
+		sort.Strings(kindNames)
+		base := c20EncodeBlock(h, uint32(len(g.raws)), g.raws)
+		msg, v0 := c20Judge(base, ev)
+		if msg != "" {
+			t.Fatalf("canonical block (alt key %q): %s", altKey, msg)
+		}
+		if v0.blk == nil && (altKey == "" || altKey == "canonical") {
+			t.Fatalf("canonical generated block rejected: %v", v0.err)
+		}
+		desc := ""
+		for m := 0; m < 8; m++ {
+			chosen := map[int]bool{}
+			first := rapid.SampledFrom(kindNames).Draw(t, "kind")
+			chosen[rapid.SampledFrom(byKind[first]).Draw(t, "which")] = true
+			if rapid.IntRange(0, 2).Draw(t, "more") == 0 {
+				for i, n := 0, rapid.IntRange(1, 2).Draw(t, "extra"); i < n; i++ {
+					chosen[rapid.IntRange(0, len(all)-1).Draw(t, "also")] = true
+				}
+			}
+			hw := map[int]int{}
+			tw := make([]map[int]int, len(g.txs))
+			var picks []int
+			for c := range chosen {
+				picks = append(picks, c)
+			}
+			sort.Ints(picks)
+			var label []string
+			for _, c := range picks {
+				w := all[c]
+				p := hps
+				if w.tx >= 0 {
+					p = txps[w.tx]
+				}
+				var sizes []int
+				for _, s := range []int{3, 5, 9} {
+					if s > p[w.idx].size {
+						sizes = append(sizes, s)
+					}
+				}
+				if len(sizes) == 0 {
+					t.Fatalf("harness: prefix of 9 bytes in a generated block")
+				}
+				size := rapid.SampledFrom(sizes).Draw(t, "width")
+				if w.tx >= 0 {
+					if tw[w.tx] == nil {
+						tw[w.tx] = map[int]int{}
+					}
+					tw[w.tx][w.idx] = size
+					label = append(label, fmt.Sprintf("tx%d.%d:%d", w.tx, w.idx, size))
+				} else {
+					hw[w.idx] = size
+					label = append(label, fmt.Sprintf("%s#%d:%d", kinds[c], w.idx, size))
+				}
+			}
+			whb := c20Widen(hb, hps, hw)
+			mb := append([]byte{}, whb...)
+			mb = append(mb, byte(len(g.raws)), byte(len(g.raws)>>8), byte(len(g.raws)>>16), byte(len(g.raws)>>24))
+			for ti, raw := range g.raws {
+				mb = append(mb, c20Widen(raw, txps[ti], tw[ti])...)
+			}
+			grow := 0
+			for _, c := range picks {
+				if w := all[c]; w.tx >= 0 {
+					grow += tw[w.tx][w.idx] - txps[w.tx][w.idx].size
+				} else {
+					grow += hw[w.idx] - hps[w.idx].size
+				}
+			}
+			if len(mb) != len(base)+grow || grow <= 0 {
+				t.Fatalf("harness: widened block has unexpected length")
+			}
+			ev.Class("widen")
+			if len(picks) == 1 {
+				ev.Class("widen:only:" + kinds[picks[0]])
+			} else {
+				ev.Class("widen:several")
+			}
+			msg, v := c20Judge(mb, ev)
+			if msg != "" {
+				t.Fatalf("block with non-minimal length prefix(es) %v (alt key %q, finding listed %v): %s", label, altKey, known.key, msg)
+			}
+			if v.blk != nil {
+				// the judge has compared ToArray() with the input; the encoder writes minimal prefixes only
+				t.Fatalf("block with non-minimal length prefix(es) %v accepted: %s", label, harn.Hex(mb))
+			}
+			ev.Class("widen:rejected")
+			// the header alone (Header.Deserialization is also the p2p / header-sync entry point)
+			if len(hw) > 0 {
+				guard(t, "HeaderFromRawBytes", func() {
+					hd, err := types.HeaderFromRawBytes(append([]byte{}, whb...))
+					if err != nil {
+						ev.Class("widen:header:rejected")
+						return
+					}
+					if arr := hd.ToArray(); !bytes.Equal(arr, whb) {
+						t.Fatalf("header with non-minimal length prefix(es) %v decodes but re-encodes differently:\n input   %x\n ToArray %x", label, whb, arr)
+					}
+				})
+			}
+			desc += " [" + strings.Join(label, ",") + "]"
+		}
+		ev.Case(true, fmt.Sprintf("widen %s alt=%q:%s", g.desc, altKey, desc))
 	})
 }
 
